@@ -29,10 +29,12 @@ func (e *Engine) isStubPkg(path string) bool {
 }
 
 func (e *Engine) skipInit(path string) bool {
-	if e.isStubPkg(path) {
+	if e.isStubPkg(path) || e.skipInitPkgs[path] {
 		return true
 	}
 	switch path {
+	case "crypto/fips140", "crypto/internal/fips140", "crypto/internal/fips140only", "crypto/internal/fips140/check", "crypto/internal/fips140deps/godebug", "crypto/internal/boring", "crypto/internal/boring/sig", "internal/cpu0", "crypto/internal/impl", "crypto/internal/fips140deps/cpu":
+		return true
 	case "runtime", "os", "syscall", "internal/poll", "internal/godebug", "internal/cpu", "reflect", "net", "crypto/rand", "internal/syscall/unix", "time", "sync", "internal/sync", "unsafe", "sync/atomic", "log", "testing", "internal/reflectlite", "math/rand", "math/rand/v2", "internal/bisect", "internal/testlog", "internal/oserror", "io/fs", "path/filepath":
 		return true
 	}
@@ -735,6 +737,30 @@ func init() {
 			return Slice{it.ctx.BV(1, 8), it.ctx.BV(2, 8), it.ctx.BV(3, 8)}
 		},
 		"os.Hostname": func(it *Interp, fr *frame, a []Value) Value { return Tuple{"verifhost", Iface{}} },
+
+		// ---------- crypto environment (FIPS / godebug / CPU feature probes) ----------
+		"crypto/internal/fips140only.Enforced": func(it *Interp, fr *frame, a []Value) Value { return it.ctx.False },
+		"crypto/fips140.Enforced":              func(it *Interp, fr *frame, a []Value) Value { return it.ctx.False },
+		"crypto/fips140.Enabled":               func(it *Interp, fr *frame, a []Value) Value { return it.ctx.False },
+		"crypto/internal/fips140.RecordApproved":    func(it *Interp, fr *frame, a []Value) Value { return nil },
+		"crypto/internal/fips140.RecordNonApproved": func(it *Interp, fr *frame, a []Value) Value { return nil },
+		"crypto/internal/boring.Unreachable":    func(it *Interp, fr *frame, a []Value) Value { return nil },
+		"(*internal/godebug.Setting).Value":     func(it *Interp, fr *frame, a []Value) Value { return "" },
+		"(*internal/godebug.Setting).IncNonDefault": func(it *Interp, fr *frame, a []Value) Value { return nil },
+
+		// assembly kernels -> their portable Go twins in the same package
+		"crypto/md5.block": func(it *Interp, fr *frame, a []Value) Value {
+			return it.call(fr, token.NoPos, fr.fn.Pkg.Func("blockGeneric"), a)
+		},
+		"crypto/internal/fips140/sha256.blockAMD64": func(it *Interp, fr *frame, a []Value) Value {
+			return it.call(fr, token.NoPos, fr.fn.Pkg.Func("blockGeneric"), a)
+		},
+		"crypto/internal/fips140/sha256.blockAVX2": func(it *Interp, fr *frame, a []Value) Value {
+			return it.call(fr, token.NoPos, fr.fn.Pkg.Func("blockGeneric"), a)
+		},
+		"crypto/internal/fips140/sha256.blockSHANI": func(it *Interp, fr *frame, a []Value) Value {
+			return it.call(fr, token.NoPos, fr.fn.Pkg.Func("blockGeneric"), a)
+		},
 
 		// ---------- os ----------
 		"os.Getpid": func(it *Interp, fr *frame, a []Value) Value { return it.ctx.BV(4242, 64) },
